@@ -93,9 +93,9 @@ Section Upd.
       destruct (mark_assets midp (a_pf a) (map fst (pf_pos (a_pf a))) t) as [pf1 [[]|e]] eqn:M.
       + destruct (mark_assets_not_early t _ _ _ _ C M) as [_ K]. destruct (K eq_refl) as [K1 K2].
         destruct (mark_all midp l t) as [r1 rr] eqn:MA. intro H; inversion H; subst.
-        destruct (IH _ _ Fl MA) as [N KK]. split; [exact N|]. intro E. destruct (KK E) as [G1 G2].
+        destruct (IH _ _ Fl eq_refl) as [N KK]. split; [exact N|]. intro E. destruct (KK E) as [G1 G2].
         split; [|simpl; rewrite G2; reflexivity]. constructor; [|exact G1]. simpl. split; [exact K1|].
-        intros O NQ. rewrite K2. apply Q; assumption.
+        intros O NQ. simpl in *. rewrite K2. apply Q; assumption.
       + destruct (mark_assets_not_early t _ _ _ _ C M) as [N _]. intro H; inversion H; subst. split; [exact N|discriminate].
   Qed.
 
@@ -146,8 +146,8 @@ Section Upd.
     r <> Err EarlyTimestamp /\ ready t pids (b_accts b1) /\ b_dt b1 = t.
   Proof.
     intros D I R. unfold execute.
-    destruct (bidask (b_dt b) (o_asset o)) as [[bid ask]|]; [|intro H; inversion H; subst; split; [discriminate|split; assumption]].
-    destruct (acct_find p (b_accts b)) as [a|] eqn:F; [|intro H; inversion H; subst; split; [discriminate|split; assumption]].
+    destruct (bidask (b_dt b) (o_asset o)) as [[bid ask]|]; [|intro H; inversion H; subst; split; [discriminate|split; [assumption|reflexivity]]].
+    destruct (acct_find p (b_accts b)) as [a|] eqn:F; [|intro H; inversion H; subst; split; [discriminate|split; [assumption|reflexivity]]].
     destruct (R p a F) as [C L]. specialize (L I).
     match goal with |- context [pf_transact ?pf ?tx] =>
       destruct (pf_transact pf tx) as [pf' [[]|e]] eqn:T;
@@ -208,20 +208,155 @@ Section Upd.
       destruct (is_open t) eqn:O; [|intro H; inversion H].
       intro H. intro E. subst e.
       set (pids := map fst (drained l1)).
-      assert (ND1 : NoDup (map fst (empty_queues l1))).
-      { unfold empty_queues. rewrite map_map. simpl. rewrite KEYS. exact ND. }
       assert (R : ready t pids (b_accts (set_accts (set_now b t) (empty_queues l1)))).
       { simpl. intros q a F. apply acct_find_in in F. unfold empty_queues in F. apply in_map_iff in F.
-        destruct F as ([k x] & E & I). inversion E; subst. simpl.
+        destruct F as ([k x] & E & I). simpl in E. inversion E. subst a. simpl.
         rewrite Forall_forall in A1. destruct (A1 (k, x) I) as [C Q]. simpl in C, Q. split; [exact C|].
         intro IP. unfold pids in IP. apply in_map_iff in IP. destruct IP as (po & E2 & IP).
-        destruct (drained_pids _ _ IP) as (a' & Ia & NQ). rewrite E2 in Ia.
+        destruct (drained_pids _ _ IP) as (a' & Ia & NQ). rewrite E2 in Ia. subst q.
         assert (ND' : NoDup (map fst l1)) by (rewrite KEYS; exact ND).
         assert (X : a' = x).
         { pose proof (in_acct_find _ _ _ ND' Ia) as F1. pose proof (in_acct_find _ _ _ ND' I) as F2. congruence. }
         subst a'. apply Q; [reflexivity|exact NQ]. }
       apply (execute_all_not_early t pids _ _ _ _ _ (eq_refl : b_dt (set_accts (set_now b t) (empty_queues l1)) = t)) in H; [congruence| |exact R].
       intros po I. apply (Permutation.Permutation_in _ (sells_first_perm _)) in I. unfold pids. apply in_map. exact I.
-    - destruct (mark_all_not_early t (is_open t) _ _ _ A0 M) as [N _]. intro H; inversion H; subst. exact N.
+    - destruct (mark_all_not_early t (is_open t) _ _ _ A0 M) as [N _]. intro H; inversion H; subst.
+      intro E. apply N. rewrite E. reflexivity.
   Qed.
 End Upd.
+
+(** * Consequences *)
+Section UpdNoop.
+  Variable bidask : Z -> string -> option (Q * Q).
+  Variable midp : Z -> string -> option Q.
+
+  (** a clock update refused for an early timestamp has touched nothing at all *)
+  Theorem update_rejected_early_is_noop b t b1 ef :
+    NoDup (map fst (b_accts b)) ->
+    update bidask midp true b t = (b1, Err EarlyTimestamp, ef) -> b1 = b /\ ef = [].
+  Proof.
+    intros ND U.
+    destruct (forallb (fun pa => acct_clock_ok t (is_open t) (snd pa)) (b_accts b)) eqn:V.
+    - exfalso. exact (update_validated_never_early bidask midp b t b1 EarlyTimestamp ef ND V U eq_refl).
+    - rewrite (update_refused_early bidask midp b t V) in U. inversion U; subst. split; reflexivity.
+  Qed.
+
+  (** portfolio ids stay distinct along every run from a fresh broker *)
+  Lemma acct_set_keys pid a a' (l : list (string * acct)) :
+    acct_find pid l = Some a -> map fst (acct_set pid a' l) = map fst l.
+  Proof.
+    induction l as [|[k x] l IH]; simpl; [discriminate|]. destruct (String.eqb pid k) eqn:E.
+    - intros _. reflexivity.
+    - intro H. simpl. rewrite IH by exact H. reflexivity.
+  Qed.
+  Lemma mark_all_keys l t : forall l1 r, mark_all midp l t = (l1, r) -> map fst l1 = map fst l.
+  Proof.
+    induction l as [|[k a] l IH]; intros l1 r; simpl.
+    - intro H; inversion H; reflexivity.
+    - destruct (mark_assets midp (a_pf a) (map fst (pf_pos (a_pf a))) t) as [pf1 [[]|e]].
+      + destruct (mark_all midp l t) as [r1 rr] eqn:MA. intro H; inversion H; subst. simpl. rewrite (IH _ _ eq_refl). reflexivity.
+      + intro H; inversion H; subst. reflexivity.
+  Qed.
+  Lemma execute_keys b p o b1 r e1 : execute bidask b p o = (b1, r, e1) -> map fst (b_accts b1) = map fst (b_accts b).
+  Proof.
+    unfold execute. destruct (bidask (b_dt b) (o_asset o)) as [[bid ask]|]; [|intro H; inversion H; reflexivity].
+    destruct (acct_find p (b_accts b)) as [a|] eqn:F; [|intro H; inversion H; reflexivity].
+    match goal with |- context [pf_transact ?pf ?tx] => destruct (pf_transact pf tx) as [pf' [u|e]] end;
+      intro H; inversion H; subst; simpl; apply (acct_set_keys _ a); exact F.
+  Qed.
+  Lemma execute_all_keys l : forall b b1 r e1,
+    execute_all bidask b l = (b1, r, e1) -> map fst (b_accts b1) = map fst (b_accts b).
+  Proof.
+    induction l as [|[p o] l IH]; intros b b1 r e1; simpl.
+    - intro H; inversion H; reflexivity.
+    - destruct (execute bidask b p o) as [[bx [u|e]] ex] eqn:X.
+      + destruct (execute_all bidask bx l) as [[b2 rr] e2] eqn:XA. intro H; inversion H; subst.
+        rewrite (IH _ _ _ _ XA). eapply execute_keys; eauto.
+      + intro H; inversion H; subst. eapply execute_keys; eauto.
+  Qed.
+  Lemma update_keys pre b t b1 r ef : update bidask midp pre b t = (b1, r, ef) -> map fst (b_accts b1) = map fst (b_accts b).
+  Proof.
+    unfold update. destruct (pre && negb (forallb (fun pa => acct_clock_ok t (is_open t) (snd pa)) (b_accts b)));
+      [intro H; inversion H; reflexivity|].
+    destruct (mark_all midp (b_accts (set_now b t)) t) as [l1 [u|e]] eqn:M; pose proof (mark_all_keys _ _ _ _ M) as K; simpl in K.
+    - destruct (is_open t).
+      + intro H. rewrite (execute_all_keys _ _ _ _ _ H). simpl. unfold empty_queues. rewrite map_map. simpl.
+        rewrite <- K. clear. induction l1 as [|x r IH]; simpl; congruence.
+      + intro H; inversion H; subst. simpl. exact K.
+    - intro H; inversion H; subst. simpl. exact K.
+  Qed.
+
+  Lemma acct_find_none_notin pid (l : list (string * acct)) : acct_find pid l = None -> ~ In pid (map fst l).
+  Proof.
+    induction l as [|[k x] l IH]; simpl; [tauto|]. destruct (String.eqb pid k) eqn:E; [discriminate|].
+    apply String.eqb_neq in E. intros H [X|X]; [congruence|exact (IH H X)].
+  Qed.
+
+  Lemma step_nodup pre b o b1 r ef :
+    NoDup (map fst (b_accts b)) -> step bidask midp pre b o = (b1, r, ef) -> NoDup (map fst (b_accts b1)).
+  Proof.
+    intro ND. destruct o; simpl.
+    - destruct (qltb a 0); intro H; inversion H; subst; exact ND.
+    - destruct (qltb a 0); [intro H; inversion H; subst; exact ND|].
+      destruct (qltb (b_cash b) a); intro H; inversion H; subst; exact ND.
+    - destruct (acct_find pid (b_accts b)) eqn:F; intro H; inversion H; subst; [exact ND|].
+      simpl. rewrite map_app. simpl. apply acct_find_none_notin in F.
+      clear - ND F. induction (map fst (b_accts b)) as [|x xs IH]; simpl.
+      + constructor; [intros []|constructor].
+      + inversion ND; subst. constructor.
+        * rewrite in_app_iff. simpl. intros [H|[H|[]]]; [contradiction|]. subst. apply F. left. reflexivity.
+        * apply IH; [assumption|]. intro H. apply F. right. exact H.
+    - destruct (qltb a 0); [intro H; inversion H; subst; exact ND|].
+      destruct (acct_find pid (b_accts b)) as [ac|] eqn:F; [|intro H; inversion H; subst; exact ND].
+      destruct (qltb (b_cash b) a); [intro H; inversion H; subst; exact ND|].
+      destruct (pf_subscribe (a_pf ac) (b_dt b) a) as [pf' [u|e]]; intro H; inversion H; subst; simpl;
+        rewrite (acct_set_keys _ ac _ _ F); exact ND.
+    - destruct (qltb a 0); [intro H; inversion H; subst; exact ND|].
+      destruct (acct_find pid (b_accts b)) as [ac|] eqn:F; [|intro H; inversion H; subst; exact ND].
+      destruct (qltb (pf_cash (a_pf ac)) a); [intro H; inversion H; subst; exact ND|].
+      destruct (pf_withdraw (a_pf ac) (b_dt b) a) as [pf' [u|e]]; intro H; inversion H; subst; simpl;
+        rewrite (acct_set_keys _ ac _ _ F); exact ND.
+    - destruct (acct_find pid (b_accts b)) as [ac|] eqn:F; intro H; inversion H; subst; [|exact ND].
+      simpl. rewrite (acct_set_keys _ ac _ _ F). exact ND.
+    - destruct (update bidask midp pre b t) as [[b' [u|e]] ef'] eqn:U; intro H; inversion H; subst;
+        rewrite (update_keys _ _ _ _ _ _ U); exact ND.
+    - destruct cur as [c|]; [match goal with |- (if ?x then _ else _) = _ -> _ => destruct x end|];
+        intro H; inversion H; subst; exact ND.
+    - intro H; inversion H; subst; exact ND.
+    - intro H; inversion H; subst; exact ND.
+    - destruct (acct_find pid (b_accts b)); intro H; inversion H; subst; exact ND.
+    - destruct (acct_find pid (b_accts b)); intro H; inversion H; subst; exact ND.
+    - destruct (acct_find pid (b_accts b)); intro H; inversion H; subst; exact ND.
+  Qed.
+
+  Lemma run_nodup pre ops : forall b b1 rs es,
+    NoDup (map fst (b_accts b)) -> run bidask midp pre b ops = (b1, rs, es) -> NoDup (map fst (b_accts b1)).
+  Proof.
+    induction ops as [|o ops IH]; intros b b1 rs es ND; simpl.
+    - intro H; inversion H; subst; exact ND.
+    - destruct (step bidask midp pre b o) as [[bx r1] e1] eqn:S.
+      destruct (run bidask midp pre bx ops) as [[b2 rs2] e2] eqn:R. intro H; inversion H; subst.
+      eapply IH; [eapply step_nodup; eauto|exact R].
+  Qed.
+
+  (** the complete statement for every state reachable from a fresh broker: ANY request refused for
+      one of the listed reasons leaves all observables unchanged and records no cash movement *)
+  Theorem reachable_rejected_is_noop start base funds fee b0 ops b rs es o b' e ef :
+    broker_init start base funds fee = Ok b0 ->
+    run bidask midp true b0 ops = (b, rs, es) ->
+    step bidask midp true b o = (b', Err e, ef) ->
+    (forall t, o = Update t -> e = EarlyTimestamp) ->
+    broker_obs b' = broker_obs b /\ ef = [].
+  Proof.
+    intros I R S L.
+    assert (ND : NoDup (map fst (b_accts b))).
+    { eapply run_nodup; [|exact R]. unfold broker_init in I.
+      destruct (negb (existsb (String.eqb base) currencies)); [discriminate|]. destruct (qltb funds 0); [discriminate|].
+      inversion I; subst. simpl. constructor. }
+    destruct o as [a|a|p|p a|p a|p a q|tu|c| | |p|p|p];
+      try (refine (step_rejected_noop bidask midp b _ b' e ef _ S); intros t0 X; discriminate).
+    specialize (L tu eq_refl). subst e. simpl in S.
+    destruct (update bidask midp true b tu) as [[bx [u|e2]] efx] eqn:U; inversion S; subst.
+    destruct (update_rejected_early_is_noop _ _ _ _ ND U) as [E1 E2]. subst. split; reflexivity.
+  Qed.
+End UpdNoop.
